@@ -243,6 +243,25 @@ theorem strcmp_neg : ∀ {a b : List Nat}, (∀ x ∈ a, x ≠ 0) → (∀ x ∈
     · simp only [c, if_false, false_and, or_false]
       omega
 
+/-- the n-limited comparison compares the first `n` chars -/
+theorem strncmp_take : ∀ (n : Nat) (a b : List Nat), (∀ x ∈ a, x ≠ 0) →
+    strncmpL a b n = strcmpL (a.take n) (b.take n)
+  | 0, a, b, _ => by simp [strncmpL, strcmpL]
+  | n + 1, [], [], _ => by simp [strncmpL, strcmpL]
+  | n + 1, [], y :: t, _ => by simp [strncmpL, strcmpL]
+  | n + 1, x :: xs, [], ha => by
+    have : x ≠ 0 := ha x (by simp)
+    simp [strncmpL, strcmpL, this]
+  | n + 1, x :: xs, y :: ys, ha => by
+    simp only [strncmpL, List.headD_cons, List.tail_cons, List.take_succ_cons, strcmpL]
+    by_cases c : x = y
+    · simp only [c, if_true]
+      exact strncmp_take n xs ys (fun z hz => ha z (by simp [hz]))
+    · simp only [c, if_false]
+
+theorem toLower_ne_zero {x : Nat} (h : x ≠ 0) : toLower x ≠ 0 := by
+  unfold toLower; split <;> omega
+
 /-! ### trim -/
 
 /-- the range `trim` keeps is the string without its leading and trailing chars of the set -/
